@@ -111,6 +111,12 @@ CHECKS['C11'] = dict(
     note='comparison through JSON renderings (the stand-alone module has its own classes); cache-key defects are C12\'s business',
     ref='6/C11')
 
+CHECKS['C17'] = dict(
+    technique='TLA+ definition of what %import (renaming layers, dependencies), %override, %extend and template instantiation mean - the written-out grammar as data for the EBNF.tla semantics - evaluated by TLC against real parses of module systems written as real .lark files',
+    text='Imports.tla assembles, from a module system (main + up to two modules, multi / single / renaming imports, transitive imports, same-named local rules, %override/%extend of imported rules, templates), the grammar with every definition written out under its documented name (alias, or module__name layer by layer, aliases of alternatives included); TLC computes the shaped trees of each input from that grammar with EBNF.tla and judges language and trees of the real Lark(main.lark) under Earley and LALR; terminals built from other terminals and %extend/%override of imported terminals are covered through the spelling of the tokens.',
+    note='module rule names without leading underscore (TLC strings are atomic); one import statement per module; terminal languages (finite) spelled out by the harness',
+    ref='6/C17')
+
 NOT_APPLICABLE = []
 
 
